@@ -73,14 +73,16 @@ PANEL_CLAUSE = "implies(self.database.is_panel(), same(self.database.individualM
 
 contract(B + 'calculate_likelihood', ['C04', 'C02'],
          types={'x': 'list[float]', 'scaled': 'bool', 'batch': 'float | None'},
-         raises={'BiogemeError': 'batch is not None',
+         # round 3 (m1): `check_safe=False` (implicit exceptions ASSUMED away) removed.  The division by the sample size is then an
+         # obligation (safe:div), and the refusal of an empty sample is part of the contract, as in calculate_likelihood_and_derivatives
+         raises={'BiogemeError': 'batch is not None or (batch is None and len(x) == len(self.id_manager.free_betas_values) and scaled '
+                                 'and float(self.database.get_sample_size()) == 0)',
                  'ValueError': 'batch is None and len(x) != len(self.id_manager.free_betas_values)'},
          modifies=['*.individualMap', '*.data', '*.fullIndividualMap'],
          ensures={'value': "result == ite(scaled, app('engine.calculateLikelihood', self.theC, x, self.id_manager.fixed_betas_values) / float(self.database.get_sample_size()), "
                            "app('engine.calculateLikelihood', self.theC, x, self.id_manager.fixed_betas_values))",
                   # panel data: the map individual -> rows was rebuilt from the data the database holds now (a stale map gives a wrong sample size)
                   'panel_map_is_the_map_of_the_data': PANEL_CLAUSE},
-         check_safe=False,
          replay="""
 import warnings; warnings.simplefilter('ignore')
 import pandas as pd, numpy as np
@@ -88,6 +90,7 @@ from biogeme.expressions import Beta, Variable
 from biogeme.database import Database
 from biogeme.biogeme import BIOGEME
 from biogeme.parameters import Parameters
+from biogeme.exceptions import BiogemeError
 db = Database('d', pd.DataFrame({'x': [1.0, 2.0, 4.0], 'y': [0.5, 0.1, 0.2]}))
 f = -(Beta('b', 0.3, None, None, 0) * Variable('x') - Variable('y')) ** 2
 b = BIOGEME(db, f, parameters=Parameters())
@@ -95,4 +98,15 @@ u, s = b.calculate_likelihood([0.3], scaled=False), b.calculate_likelihood([0.3]
 want = -sum((0.3 * x - y) ** 2 for x, y in [(1.0, 0.5), (2.0, 0.1), (4.0, 0.2)])
 violated = not (abs(u - want) < 1e-9 and abs(s - want / 3) < 1e-9)
 detail = f'unscaled {u} (sum of rows {want}), scaled {s} (expected {want / 3})'
+if not violated:
+    # the sample emptied after the object was built: the scaled value is undefined; refused with BiogemeError (as the sibling
+    # calculate_likelihood_and_derivatives does), never an implicit ZeroDivisionError
+    db.remove(Variable('x') > 0)
+    try:
+        r = b.calculate_likelihood([0.3], scaled=True)
+        violated, detail = True, f'sample size {db.get_sample_size()}: scaled likelihood returned {r}'
+    except BiogemeError:
+        pass
+    except Exception as e:
+        violated, detail = True, f'sample size {db.get_sample_size()}: calculate_likelihood(scaled=True) raises {type(e).__name__}: {e} (expected BiogemeError)'
 """)
